@@ -35,8 +35,7 @@ def _sub(chk, modname):
 
 def run(chk):
     life_check.run_property(chk, 'C06', 'props/C06.v')
-    for m in ('c10', 'c09'):
-        _sub(chk, m)
+    _sub(chk, 'c10')      # which runs the C09 correspondence itself
     chk.coverage['rule'] += ('; plus the C10 (listener protocol) and C09 (event pools) correspondences, run here because an '
                              'exception escaping the listener parser, the pool dispatch or finish()/drain() ends the main loop')
 
